@@ -1,8 +1,13 @@
 (* C04 — property theorems only (each closed by [exact]) + Print Assumptions.
    [published evs] = the initial root and every root swapped in while running [evs], each with
-   the number of EIntroduce events that preceded its publication; a reader holds one of them. *)
+   the number of EIntroduce events that preceded its publication; a reader holds one of them.
+   [serialisable nids ws clients] (Scorch/Ser.v) = some serial order of all the batches of the
+   writers [ws], respecting each writer's own order, explains every client's observations (each the
+   state after a prefix that contains what had been acknowledged and nothing not yet submitted, the
+   prefixes of one client never going backwards); [ser_check] is the search the harness's
+   writers-on-the-same-documents cases are judged by, on every index type. *)
 From Coq Require Import ZArith List.
-From Verif Require Import Scorch.Model Scorch.ProofsCore.
+From Verif Require Import Scorch.Model Scorch.ProofsCore Scorch.Ser Scorch.ProofsSer.
 Import ListNotations.
 Local Open Scope Z_scope.
 
@@ -19,3 +24,13 @@ Theorem C04_monotone : forall evs pub,
     nth_error pub i = Some (r1, k1) -> nth_error pub j = Some (r2, k2) -> (k1 <= k2)%nat.
 Proof. exact trace_monotone. Qed.
 Print Assumptions C04_monotone.
+
+Theorem C04_ser_check_sound : forall nids ws clients,
+  ser_check nids ws clients = true -> serialisable nids ws clients.
+Proof. exact ser_check_sound. Qed.
+Print Assumptions C04_ser_check_sound.
+
+Theorem C04_ser_check_complete : forall nids ws clients,
+  serialisable nids ws clients -> ser_check nids ws clients = true.
+Proof. exact ser_check_complete. Qed.
+Print Assumptions C04_ser_check_complete.
